@@ -121,24 +121,47 @@ Lemma ex_indices :
   running_lists p_cscan ex_sorted 0 = [[0; 0; 0; 1]; [2; 2]; [3; 3; 3]]%Z.
 Proof. destruct ex_in_range as (A & B). repeat split; try assumption; reflexivity. Qed.
 
-(* finding C19-F4: an integer sensor of an unsigned type (values 3, 200) held by the first of two parts only: the
-   property asks for the concatenation with dummy fill (spec_sensor answers), ConcatenatedSensorCache.get raises *)
+(* finding C19-F4 (repaired): an integer sensor of an unsigned 8-bit type (values 3, 200) held by the first of two parts
+   only.  Before the repair ConcatenatedSensorCache.get raised where the property asks for the concatenation with dummy
+   fill; now the second part is filled with 255 = the value -1 is cast to. *)
 Definition ex_BU : part :=
   mkPart 100 2 [0; 4; 8; 12]%Z (c1 4) (c1 4) (mk [2; 3]%Z [0; 1] [0; 1; 4])
          (mk [1; 0]%Z [0; 1; 0] [0; 1; 3; 4]) (mk [1; 2]%Z [0; 1] [0; 3; 4]) (mk [0; 1; 2]%Z [0; 1; 2] [0; 1; 3; 4])
          (mk [0; 1]%Z [0; 1] [0; 3; 4])
          [(9%Z, SCat SensorCache.DInt (mk [3; 200]%Z [0; 1] [0; 1; 4]))].
 Definition ex_U : list part := [ex_BU; ex_C].
+Definition ex_Um : merged := match concat_open ex_U with COk m => m | CErr _ => mkMerged [] [] 0 [] [] [] end.
 
-Lemma ex_unsigned_refuted :
+Lemma ex_U_hyps :
+  sort_parts ex_U = Some ex_U /\ Forall part_ok ex_U /\ concat_open ex_U = COk ex_Um /\ Forall (sens_ok 9%Z) ex_U /\
+  mixed_kinds 9%Z ex_U = false.
+Proof.
+  split; [reflexivity|]. split; [repeat constructor; cdok|]. split; [reflexivity|]. split; [|reflexivity].
+  constructor; [|constructor; [|constructor]]; (split; [cbn; lia|]); cbn; intros dt c Hc; inversion Hc; subst; cdok.
+Qed.
+
+Lemma ex_unsigned_refuted_before_fix :
   exists input ps m name l,
     sort_parts input = Some ps /\ Forall part_ok ps /\ concat_open input = COk m /\ Forall (sens_ok name) ps /\
     mixed_kinds name ps = false /\ spec_sensor ps name = Some l /\
-    get_sensor_u (m_parts m) name false true = RFail.
+    get_sensor_u_before_fix (m_parts m) name false true = RFail.
 Proof.
-  exists ex_U, ex_U, (match concat_open ex_U with COk m => m | CErr _ => mkMerged [] [] 0 [] [] [] end), 9%Z,
-         [3; 200; 200; 200; -1; -1]%Z.
-  split; [reflexivity|]. split; [repeat constructor; cdok|]. split; [reflexivity|]. split.
-  - constructor; [|constructor; [|constructor]]; (split; [cbn; lia|]); cbn; intros dt c Hc; inversion Hc; subst; cdok.
-  - repeat split; reflexivity.
+  destruct ex_U_hyps as (A & B & C & D & E).
+  exists ex_U, ex_U, ex_Um, 9%Z, [3; 200; 200; 200; -1; -1]%Z. repeat split; try assumption; reflexivity.
+Qed.
+
+(* the hypotheses of C19_unsigned_sensor are met by it, and the answer: the part's own values, then 255 twice; as a
+   uint16 sensor the filler would be 65535, as a signed one (ubits = 0) -1 *)
+Lemma ex_unsigned :
+  sort_parts ex_U = Some ex_U /\ Forall part_ok ex_U /\ concat_open ex_U = COk ex_Um /\ Forall (sens_ok 9%Z) ex_U /\
+  (match get_sensor_u (m_parts ex_Um) 9 false 8 with RCat c => Some (zexpand c, ev c) | _ => None end)
+    = Some ([3; 200; 200; 200; 255; 255]%Z, [0; 1; 4; 6]) /\
+  spec_sensor_u 8 ex_U 9 = Some [3; 200; 200; 200; 255; 255]%Z /\
+  spec_sensor_u 16 ex_U 9 = Some [3; 200; 200; 200; 65535; 65535]%Z /\
+  (match get_sensor_u (m_parts ex_Um) 9 false 16 with RCat c => Some (zexpand c) | _ => None end)
+    = Some [3; 200; 200; 200; 65535; 65535]%Z /\
+  (match get_sensor_u (m_parts ex_Um) 9 false 0 with RCat c => Some (zexpand c) | _ => None end)
+    = Some [3; 200; 200; 200; -1; -1]%Z.
+Proof.
+  destruct ex_U_hyps as (A & B & C & D & E). repeat split; try assumption; vm_compute; reflexivity.
 Qed.
